@@ -509,6 +509,11 @@ class Preprocessor(object):
             self.features.add("hideset-blocked")
             out.append(t)
             return
+        for h in t.hs:
+            k = similar_names(h, t.s)
+            if k:
+                # the hide set holds a different name that resembles this one: identity decides (6.10.3.4p2)
+                self.features.add("not-hidden-by-similar-name:" + k)
         if m.builtin:
             r = self._builtin(m.builtin, t)
             r.ws, r.bol, r.hs = t.ws, t.bol, t.hs
@@ -670,6 +675,8 @@ class Preprocessor(object):
                     a = args.get(nx.s)
                     s = stringize(a or [])
                     self.features.add("stringize")
+                    if a and self._names_macro(a):
+                        self.features.add("stringize-operand-contains-macro-name")
                     if a and any(x.bol for x in a[1:]):
                         self.features.add("stringize-across-newline")
                     if not a:
@@ -734,6 +741,8 @@ class Preprocessor(object):
                         toks = [PLACEMARKER]
                         self.features.add("paste-placemarker")
                     else:
+                        if self._names_macro(a):
+                            self.features.add("paste-operand-contains-macro-name")
                         toks = [x.copy() for x in a]
                         toks[0].ws = t.ws
                         toks[0].bol = False
@@ -773,6 +782,10 @@ class Preprocessor(object):
             raise Undefined("##-order-unspecified")
         return ltr
 
+    def _names_macro(self, toks):
+        """Does the token list hold an identifier that names a macro and is not painted (evidence only)?"""
+        return any(x.kind == ID and x.s in self.macros and x.s not in x.hs for x in toks)
+
     def _paste(self, ops, left_to_right):
         # flatten into a list of chains: sequences of operands joined by paste
         seq = [list(o[1]) if o[0] == "tok" else "##" for o in ops]
@@ -805,8 +818,12 @@ class Preprocessor(object):
             mid = [PLACEMARKER]
         elif a is PLACEMARKER:
             mid = [b]
+            if self._names_macro([b]):
+                self.features.add("paste-placemarker-left-of-macro-name")
         elif b is PLACEMARKER:
             mid = [a]
+            if self._names_macro([a]):
+                self.features.add("paste-placemarker-right-of-macro-name")
         else:
             r = paste_spelling(a.s, b.s)
             if r is None:
@@ -844,6 +861,23 @@ class Preprocessor(object):
         if not present:
             return []
         return [x for x in self._subst_items(m, inner, args)]
+
+
+def similar_names(a, b):
+    """How two different identifiers resemble each other: 'prefix' / 'suffix' (one is a proper prefix / suffix of
+    the other), 'last-char' (same length, only the last character differs), 'case' (equal but for letter case),
+    else ''."""
+    if a == b:
+        return ""
+    if a.startswith(b) or b.startswith(a):
+        return "prefix"
+    if a.endswith(b) or b.endswith(a):
+        return "suffix"
+    if len(a) == len(b) and a[:-1] == b[:-1]:
+        return "last-char"
+    if a.lower() == b.lower():
+        return "case"
+    return ""
 
 
 def depth_commas(arg):
